@@ -2,5 +2,6 @@
 package checks
 
 import (
+	_ "verif/harness/checks/c01"
 	_ "verif/harness/checks/c10"
 )
